@@ -174,11 +174,12 @@ class Gen:
 
     def models(self):
         rng, k = self.rng, self.k
-        names = ["Root", "Item", "other_thing", "Таблица", "model2"]
+        names = ["Root", "Item", "other_thing", "Таблица", "model2", "Bird", "Cat", "Horse"]
         out = []
         n_models = k["n_models"]
+        same_shape = n_models >= 3 and rng.random() < 0.5  # several user-named roots that merge into one model
         for i in range(n_models):
-            sid = rng.randrange(len(self.shapes)) if i else len(self.shapes) - 1
+            sid = rng.randrange(len(self.shapes)) if (i and not same_shape) else len(self.shapes) - 1
             n = rng.randint(1, k["samples"])
             samples = [self.instance(sid, k["depth"]) for _ in range(n)]
             if rng.random() < k["p_dup_sample"] and samples:
@@ -228,7 +229,7 @@ def draw_knobs(rng: random.Random, **fixed):
         "width": rng.randint(1, 7),
         "depth": rng.randint(1, 4),
         "samples": rng.randint(1, 6),
-        "n_models": rng.choice([1, 1, 1, 2, 2, 3]),
+        "n_models": rng.choice([1, 1, 1, 1, 2, 2, 3, 3, 5, 7]),
         "p_nested": rng.choice([0.0, 0.15, 0.3, 0.5]),
         "p_list_obj": rng.choice([0.0, 0.1, 0.25]),
         "p_self": rng.choice([0.0, 0.0, 0.08, 0.2]),
